@@ -49,11 +49,12 @@ ErrRef(x) == IF x.prefix \in {"int", "none", "bytes"} THEN "TypeError"
 
 (* parse_host_port(escape_ipv6(host) + ':' + port) = (host, port); no port -> default *)
 \* scope1 / scope15: the shortest and the longest legal zone index (1 and 15 characters)
-Hosts == {"name", "fqdn", "ipv4", "ipv6", "ipv6_full", "ipv6_scoped", "ipv6_scope1", "ipv6_scope15", "ipv6_v4mapped"}
+\* name_mixed / ipv6_upper: letter case is part of the host as given (it comes back as it went in)
+Hosts == {"name", "fqdn", "name_mixed", "ipv4", "ipv6", "ipv6_upper", "ipv6_full", "ipv6_scoped", "ipv6_scope1", "ipv6_scope15", "ipv6_v4mapped"}
 HpCases == {[k |-> "hp", host |-> h, port |-> p, dflt |-> d] :
               h \in Hosts, p \in {"absent", "0", "1", "80", "65535"}, d \in {"none", "1234", "0", "65535"}}
 HpRef(x) == [host |-> x.host, port |-> IF x.port = "absent" THEN x.dflt ELSE x.port]
-EscapeRef(h) == h \in {"ipv6", "ipv6_full", "ipv6_scoped", "ipv6_scope1", "ipv6_scope15", "ipv6_v4mapped"}      \* bracketed iff IPv6
+EscapeRef(h) == h \in {"ipv6", "ipv6_upper", "ipv6_full", "ipv6_scoped", "ipv6_scope1", "ipv6_scope15", "ipv6_v4mapped"}      \* bracketed iff IPv6
 
 (* urlsplit: components in, components out *)
 UrlCases == {[k |-> "url", scheme |-> s, user |-> u, host |-> h, port |-> p, path |-> pa, query |-> q, frag |-> f,
@@ -66,6 +67,10 @@ UrlCases == {[k |-> "url", scheme |-> s, user |-> u, host |-> h, port |-> p, pat
               allow |-> al, dscheme |-> "ftp"] :
                h \in {"example.com", "[::1]"}, pa \in {"", "/", "/a/b"}, q \in {"none", "repeat"},
                f \in {"none", "frag"}, al \in BOOLEAN}
+          \* a URL that names its scheme keeps it whatever default the caller offers
+          \cup {[k |-> "url", scheme |-> s, user |-> "", host |-> "example.com", port |-> p, path |-> "/a/b", query |-> "single",
+              frag |-> "none", allow |-> TRUE, dscheme |-> ds] :
+               s \in {"http", "https", "svn+ssh"}, p \in {"", "80"}, ds \in {"ftp", "https", "http"}}
 \* last / all values per name for the query classes (names a, b)
 ParamsRef(q, collapse) ==
   CASE q = "single" -> [a |-> <<"1">>, b |-> <<>>]
